@@ -309,7 +309,7 @@ def actions_reach(ai: int, ns: int, svc_state: int, app_state: int, nic_en: bool
         request = agent.action_manager.form_request(action_identifier=name, action_options=opts)
     except Exception as e:
         fail(f"form_request({name}) raised {type(e).__name__}: {e}")
-    missing = any(str(v).startswith("no") and ("such" in str(v) or str(v) in ("nofolder", "nofile")) for v in opts.values()) or opts.get("nic_num") == 7
+    missing = any(str(v).startswith("no") and ("such" in str(v) or str(v) in ("nofolder", "nofile")) for v in opts.values()) or opts.get("nic_num") in (7, 0)
     with concrete():
         before = snap(sim)
         del log[:]
